@@ -78,18 +78,21 @@ def run_ipython(forest, pl):
 
         def visit(self, node):
             return node
+    cells = []
     for op in pl["ops"]:
         if op[0] == "magic":
             shell.run_line_magic("jaxtyping.typechecker", "spy%s.check" % op[1])
         elif op[0] == "other":
             shell.ast_transformers.append(Other(op[1]))
+        elif op[0] == "reset":
+            shell.run_line_magic("reset", "-f")          # "start over": the user namespace is wiped, the transformers stay
+        elif op[0] == "shadow":
+            shell.run_cell("jaxtyping = None\n", store_history=False)   # the user's own variable of that name
         else:
             r = shell.run_cell("def %s(x: int) -> int:\n    return x\n" % op[1], store_history=False)
             if not r.success:
-                return {"error": "cell %s failed: %r %r" % (op[1], r.error_before_exec, r.error_in_exec)}
-    cells = []
-    for op in pl["ops"]:
-        if op[0] == "cell":
+                e = r.error_before_exec or r.error_in_exec
+                cells.append([op[1], "failed:%s" % type(e).__name__]); continue
             f = shell.user_ns.get(op[1])
             who = []
             for (m, q, k) in spyreg.LOG:      # jaxtyped applies the typechecker to two synthesised functions per def: one entry per checker
@@ -113,7 +116,21 @@ def run_ipython(forest, pl):
             xfs.append("O%d" % t.i)
         else:
             xfs.append("X:" + type(t).__name__)
-    return {"cells": cells, "xfs": xfs}
+    # the transformation the magic registered must make a cell self-contained: exactly one `import jaxtyping` after the
+    # docstring and the __future__ imports, and the result runs in an EMPTY namespace
+    SRC = '"""doc"""\nfrom __future__ import annotations\ndef h(x: int) -> int:\n    return x\n'
+    selfc = []
+    for t in shell.ast_transformers:
+        if isinstance(t, JaxtypingTransformer):
+            tree = ast.fix_missing_locations(t.visit(ast.parse(SRC)))
+            pos = [i for i, st in enumerate(tree.body) if isinstance(st, ast.Import) and [a.name for a in st.names] == ["jaxtyping"]]
+            try:
+                exec(compile(tree, "<cell>", "exec"), {})
+                ok = True
+            except Exception as e:  # noqa
+                ok = type(e).__name__
+            selfc.append([pos, ok])
+    return {"cells": cells, "xfs": xfs, "selfc": selfc}
 
 
 if __name__ == "__main__":
